@@ -24,12 +24,15 @@ type rowSpec struct {
 	dc, rack                       int64
 	tokens                         []string
 	tokensSet                      bool
+	nullID                         bool // host_id column NULL
 }
 
 func (rs rowSpec) row() row {
 	r := row{peer: rs.peer, broadcast: rs.bcast, listen: rs.listen, rpc: rs.rpc, preferred: rs.pref, version: "3.11.4",
 		tokens: rs.tokens, tokensSet: rs.tokensSet}
-	r.hostID = idUUID(rs.id)
+	if !rs.nullID {
+		r.hostID = idUUID(rs.id)
+	}
 	if rs.dc != 0 {
 		s := nameStr("dc", rs.dc)
 		r.dc = &s
@@ -52,6 +55,9 @@ func (rs rowSpec) term(local bool) string {
 	if rs.tokensSet && len(rs.tokens) > 0 {
 		h.Tokens = rs.tokens
 	}
+	if rs.nullID {
+		h.ID = "" // a NULL host_id: the host has no id
+	}
 	return hostTerm(h)
 }
 
@@ -60,7 +66,7 @@ func validAddr(ip net.IP) bool { return ip != nil && !ip.IsUnspecified() }
 // the property's reading of a reported row: a peer is valid when it has an rpc address, a host id, a data
 // centre, a rack and at least one token
 func (rs rowSpec) specValidPeer() bool {
-	return rs.rpc != nil && rs.id != 0 && rs.dc != 0 && rs.rack != 0 && rs.tokensSet && len(rs.tokens) > 0
+	return rs.rpc != nil && rs.id != 0 && !rs.nullID && rs.dc != 0 && rs.rack != 0 && rs.tokensSet && len(rs.tokens) > 0
 }
 
 // no column of the row holds an address one could connect to
@@ -125,6 +131,8 @@ func (g *gen) peerRow(id int64, a int) rowSpec {
 		rs.rpc = g.addr(1 + r.Intn(6)) // rpc address differs from peer
 	case 7:
 		rs.peer = v6(a)
+	case 8:
+		rs.nullID = true // gossip has not delivered the host id yet
 	}
 	return rs
 }
@@ -662,6 +670,15 @@ func scriptedSessions(o *hlib.Out) {
 		p2 := peerAt(2, a(2))
 		p2.rack = 0
 		sr.refresh(l1, []rowSpec{p2}, false) // a known node turns invalid: it vanishes
+	})
+	// NULL host_id rows (also two of them, also after a row with an id): not valid peers
+	run(sessCfg{}, l1, []rowSpec{peerAt(2, a(2))}, func(sr *sessRun) {
+		n3, n4 := peerAt(3, a(3)), peerAt(4, a(4))
+		n3.nullID, n4.nullID = true, true
+		sr.refresh(l1, []rowSpec{peerAt(2, a(2)), n3, peerAt(5, a(5)), n4}, false)
+		n2 := peerAt(2, a(2))
+		n2.nullID = true
+		sr.refresh(l1, []rowSpec{n2, peerAt(5, a(5))}, false) // a known node loses its id: it vanishes
 	})
 	// host filter: rejected nodes are not known; a node moves into a rejected data centre
 	run(sessCfg{denyIDs: []int64{3}, denyDCs: []int64{2}}, l1, []rowSpec{peerAt(2, a(2)), peerAt(3, a(3))}, func(sr *sessRun) {
